@@ -399,7 +399,22 @@ def _invalid(ctx, rs, A, tl, tenalg):
             P[0] = gen.orth(rs, J[0], R - 1)
         elif which == "p2-nonorth":
             k = int(rs.randint(I))
-            P[k] = P[k] + 1e-2 * rs.standard_normal(P[k].shape) + 0.01
+            how = gen.choice(rs, ["perturbed", "shrunk", "zero-column", "negatively-correlated", "inflated"])
+            if how == "perturbed":
+                P[k] = P[k] + 1e-2 * rs.standard_normal(P[k].shape) + 0.01
+            elif how == "shrunk":          # Gram = 0.25 I : every deviation from I is negative
+                P[k] = 0.5 * P[k]
+            elif how == "zero-column":
+                P[k] = P[k].copy()
+                P[k][:, int(rs.randint(R))] = 0
+            elif how == "negatively-correlated":   # unit-norm columns with a negative inner product
+                Q = P[k].copy()
+                Q[:, 1] = Q[:, 1] - 0.5 * Q[:, 0]
+                Q[:, 1] /= np.linalg.norm(Q[:, 1])
+                P[k] = Q
+            else:
+                P[k] = 1.5 * P[k]
+            which = which + "-" + how
         else:
             C_ = A([K, R + 1])
         tup = (None, (A_, B_, C_), P)
